@@ -541,3 +541,774 @@ if __name__ == "__main__":   # debugging aid: print what is extracted
         if inspect.isclass(c) and n.endswith("MaskFunc"):
             r = class_guards(c, REPO)
             print(n, [(g["param"], g["guard"], g["cond"]) for g in r["guards"]], r["opaque"])
+
+
+# ---- dispatch chains: `if T == c: … elif T in [...]: … else: …` on a parameter or on `self.attr` ----------------------------------
+def _target(node):
+    if isinstance(node, ast.Name):
+        return ("p", node.id)
+    if isinstance(node, ast.Attribute) and isinstance(node.value, ast.Name) and node.value.id == "self":
+        return ("s", node.attr)
+    return None
+
+
+def _branch_on(test: ast.AST, glob: dict):
+    """-> (target, [consts]) for `T == c` / `T in [..]`"""
+    if isinstance(test, ast.Compare) and len(test.ops) == 1:
+        t = _target(test.left)
+        if t and isinstance(test.ops[0], ast.Eq):
+            return t, [const_of(test.comparators[0], glob)]
+        if t and isinstance(test.ops[0], ast.In):
+            return t, consts_of(test.comparators[0], glob)
+    raise Opaque("not a dispatch test")
+
+
+def dispatch_chains(fn: ast.FunctionDef, glob: dict) -> list[dict]:
+    """every dispatch on one target inside `fn`: {target, consts, raises (the final else raises), line}"""
+    out = []
+    done: set[int] = set()
+
+    def visit(body):
+        i = 0
+        while i < len(body):
+            st = body[i]
+            if isinstance(st, (ast.FunctionDef, ast.AsyncFunctionDef, ast.ClassDef)):
+                i += 1
+                continue
+            if isinstance(st, ast.If) and id(st) not in done:
+                # shape A: if / elif / … / else
+                chain, node = [], st
+                while True:
+                    chain.append(node)
+                    if len(node.orelse) == 1 and isinstance(node.orelse[0], ast.If):
+                        node = node.orelse[0]
+                    else:
+                        break
+                try:
+                    ts, cs = set(), []
+                    for n in chain:
+                        t, c = _branch_on(n.test, glob)
+                        ts.add(t)
+                        cs += c
+                    if len(ts) == 1:
+                        # shape B: consecutive `if T == c: return …` statements followed by a fallback
+                        j = i + 1
+                        if not node.orelse and all(isinstance(n.body[-1], ast.Return) for n in chain):
+                            while j < len(body) and isinstance(body[j], ast.If) and not body[j].orelse \
+                                    and isinstance(body[j].body[-1], ast.Return):
+                                try:
+                                    t2, c2 = _branch_on(body[j].test, glob)
+                                except Opaque:
+                                    break
+                                if t2 not in ts:
+                                    break
+                                cs += c2
+                                done.add(id(body[j]))
+                                j += 1
+                        out.append({"target": ts.pop(), "consts": cs, "raises": bool(node.orelse) and _raises(node.orelse),
+                                    "line": st.lineno})
+                        for n in chain:
+                            done.add(id(n))
+                except Opaque:
+                    pass
+            for attr in ("body", "orelse", "finalbody"):
+                visit(getattr(st, attr, []) or [])
+            for h in getattr(st, "handlers", []) or []:
+                visit(h.body)
+            i += 1
+
+    visit(fn.body)
+    return out
+
+
+def _annotation_enum(fn: ast.FunctionDef, param: str, glob: dict):
+    for a in fn.args.args + fn.args.kwonlyargs:
+        if a.arg == param and a.annotation is not None:
+            for n in ast.walk(a.annotation):
+                if isinstance(n, ast.Name):
+                    o = glob.get(n.id)
+                    if inspect.isclass(o) and issubclass(o, enum.Enum):
+                        return o
+    return None
+
+
+def _intended(consts: list, en) -> list:
+    """named branch constants + the members of the annotated enum that no branch names (they take the fallback)"""
+    out = list(consts)
+    if en is not None:
+        for m in en:
+            if isinstance(m.value, str) and not any(c[0] == "str" and c[1].lower() == m.value.lower() for c in consts):
+                out.append(("str", m.value, True))
+    return out
+
+
+def _self_assignments(init: ast.FunctionDef) -> dict[str, str]:
+    """self.attr = <parameter>  ->  {attr: parameter}"""
+    params = {a.arg for a in init.args.args + init.args.kwonlyargs}
+    out = {}
+    for n in ast.walk(init):
+        if isinstance(n, ast.Assign) and len(n.targets) == 1:
+            t = _target(n.targets[0])
+            if t and t[0] == "s" and isinstance(n.value, ast.Name) and n.value.id in params:
+                out[t[1]] = n.value.id
+    return out
+
+
+def _class_node(cls: type):
+    mod = sys.modules.get(cls.__module__)
+    path = getattr(mod, "__file__", None)
+    if not path or not path.endswith(".py"):
+        return None, None, None
+    for node in ast.walk(_module_ast(path)):
+        if isinstance(node, ast.ClassDef) and node.name == cls.__name__:
+            return node, vars(mod), path
+    return None, None, None
+
+
+def callee_dispatch(obj, repo: pathlib.Path) -> dict[str, list[dict]]:
+    """parameter of a function / constructor of a class under /repo -> the dispatches that parameter decides
+    [{consts (intended), raises, where}] (soft ones only when an Enum annotation says what the fallback stands for)"""
+    res: dict[str, list[dict]] = {}
+    if inspect.isclass(obj):
+        node, glob, path = _class_node(obj)
+        if node is None or not path.startswith(str(repo)):
+            return res
+        init = next((st for st in node.body if isinstance(st, ast.FunctionDef) and st.name == "__init__"), None)
+        if init is None:
+            return res
+        assigned = _self_assignments(init)
+        rel = str(pathlib.Path(path).relative_to(repo))
+        for st in node.body:
+            if not isinstance(st, ast.FunctionDef):
+                continue
+            for d in dispatch_chains(st, glob):
+                kind, name = d["target"]
+                if kind == "s" and name in assigned:
+                    p = assigned[name]
+                elif kind == "p" and st.name == "__init__":
+                    p = name
+                else:
+                    continue
+                en = _annotation_enum(init, p, glob)
+                if not d["raises"] and en is None:
+                    continue
+                res.setdefault(p, []).append({"consts": _intended(d["consts"], None if d["raises"] else en),
+                                              "raises": d["raises"], "where": f"{rel}:{obj.__name__}.{st.name}:{d['line']}"})
+    elif inspect.isfunction(obj):
+        mod = sys.modules.get(obj.__module__)
+        path = getattr(mod, "__file__", "") or ""
+        if not path.startswith(str(repo)):
+            return res
+        rel = str(pathlib.Path(path).relative_to(repo))
+        for node in ast.walk(_module_ast(path)):
+            if isinstance(node, ast.FunctionDef) and node.name == obj.__name__:
+                for d in dispatch_chains(node, vars(mod)):
+                    kind, name = d["target"]
+                    if kind != "p":
+                        continue
+                    en = _annotation_enum(node, name, vars(mod))
+                    if not d["raises"] and en is None:
+                        continue
+                    res.setdefault(name, []).append({"consts": _intended(d["consts"], None if d["raises"] else en),
+                                                     "raises": d["raises"], "where": f"{rel}:{obj.__name__}:{d['line']}"})
+                break
+    return res
+
+
+def class_routes(cls: type, repo: pathlib.Path) -> list[dict]:
+    """dispatches a constructor parameter of `cls` decides — in its own methods (on `self.attr = parameter`) and, one call
+    away, in the functions / classes its constructor hands the parameter to.  -> [{param, consts, raises, where}]"""
+    out = []
+    seen = set()
+
+    def add(p, d):
+        key = (p, d["where"])
+        if key not in seen:
+            seen.add(key)
+            out.append({"param": p, **d})
+
+    own = callee_dispatch(cls, repo)
+    init_guard_lines = set()
+    node, glob, path = _class_node(cls)
+    if node is None:
+        return out
+    init = next((st for st in node.body if isinstance(st, ast.FunctionDef) and st.name == "__init__"), None)
+    for p, ds in own.items():
+        for d in ds:
+            if ".__init__:" in d["where"] and d["raises"]:
+                continue          # already a constructor guard
+            add(p, d)
+    if init is None:
+        return out
+    params = {a.arg for a in init.args.args + init.args.kwonlyargs}
+    for n in ast.walk(init):
+        if not isinstance(n, ast.Call) or not isinstance(n.func, ast.Name):
+            continue
+        callee = glob.get(n.func.id)
+        if callee is None or not (inspect.isfunction(callee) or inspect.isclass(callee)):
+            continue
+        try:
+            sig = inspect.signature(callee.__init__ if inspect.isclass(callee) else callee)
+        except (TypeError, ValueError):
+            continue
+        names = [q.name for q in sig.parameters.values()]
+        if inspect.isclass(callee):
+            names = names[1:]
+        disp = None
+        for i, a in enumerate(n.args):
+            if isinstance(a, ast.Name) and a.id in params and i < len(names):
+                disp = disp if disp is not None else callee_dispatch(callee, repo)
+                for d in disp.get(names[i], []):
+                    add(a.id, d)
+        for k in n.keywords:
+            if k.arg and isinstance(k.value, ast.Name) and k.value.id in params:
+                disp = disp if disp is not None else callee_dispatch(callee, repo)
+                for d in disp.get(k.arg, []):
+                    add(k.value.id, d)
+    return out
+
+
+# ---- probes: run the REAL test expressions of a dispatch on a value (used by the oracle and the correspondence) ----------------
+def _chain_tests(fn: ast.FunctionDef, line: int, glob: dict):
+    """the test expressions (compiled from the current source) of the dispatch starting at `line`, its target, and
+    whether the final else raises"""
+    for n in ast.walk(fn):
+        if isinstance(n, ast.If) and n.lineno == line:
+            tests, node = [], n
+            while True:
+                tests.append(node.test)
+                if len(node.orelse) == 1 and isinstance(node.orelse[0], ast.If):
+                    node = node.orelse[0]
+                else:
+                    break
+            # shape B: following sibling ifs on the same target are found through dispatch_chains' bookkeeping
+            return tests
+    return []
+
+
+def route_probes(cls: type, repo: pathlib.Path) -> list[dict]:
+    """for every dispatch a constructor parameter of `cls` decides: {param, where, enum, index(value) -> int}
+    `index` evaluates the real test expressions in source order and returns the number of the first true one
+    (len(tests) = the fallback)."""
+    out = []
+    for rt in class_routes(cls, repo):
+        rel, owner, line = rt["where"].rsplit(":", 2)
+        path = str(repo / rel)
+        tree = _module_ast(path)
+        fn_name = owner.split(".")[-1]
+        cls_name = owner.split(".")[0] if "." in owner else None
+        fn = None
+        for node in ast.walk(tree):
+            if cls_name and isinstance(node, ast.ClassDef) and node.name == cls_name:
+                fn = next((st for st in node.body if isinstance(st, ast.FunctionDef) and st.name == fn_name), None)
+            elif not cls_name and isinstance(node, ast.FunctionDef) and node.name == fn_name:
+                fn = node
+            if fn is not None:
+                break
+        if fn is None:
+            continue
+        # all tests of the dispatch: the chain at `line` plus (shape B) the sibling ifs dispatch_chains merged into it
+        mod = None
+        for m in list(sys.modules.values()):
+            if getattr(m, "__file__", None) == path:
+                mod = m
+                break
+        if mod is None:
+            continue
+        glob = vars(mod)
+        tests = _chain_tests(fn, int(line), glob)
+        if not tests:
+            continue
+        t0 = _branch_target(tests[0])
+        if t0 is None:
+            continue
+        # siblings (shape B)
+        parent_body = None
+        for n in ast.walk(fn):
+            for attr in ("body", "orelse"):
+                b = getattr(n, attr, None)
+                if isinstance(b, list) and any(isinstance(x, ast.If) and x.lineno == int(line) for x in b):
+                    parent_body = b
+        if parent_body is not None:
+            idx = next(i for i, x in enumerate(parent_body) if isinstance(x, ast.If) and x.lineno == int(line))
+            first = parent_body[idx]
+            if not first.orelse and isinstance(first.body[-1], ast.Return):
+                for x in parent_body[idx + 1:]:
+                    if isinstance(x, ast.If) and not x.orelse and isinstance(x.body[-1], ast.Return) and _branch_target(x.test) == t0:
+                        tests.append(x.test)
+                    else:
+                        break
+        codes = [compile(ast.Expression(body=t), f"<{rt['where']}>", "eval") for t in tests]
+        en = None
+        # the enum the parameter is annotated with (callee side)
+        if cls_name:
+            owner_cls = glob.get(cls_name)
+            cnode, cglob, _ = _class_node(owner_cls) if inspect.isclass(owner_cls) else (None, None, None)
+            if cnode is not None:
+                init = next((st for st in cnode.body if isinstance(st, ast.FunctionDef) and st.name == "__init__"), None)
+                if init is not None:
+                    assigned = _self_assignments(init)
+                    pname = assigned.get(t0[1], t0[1]) if t0[0] == "s" else t0[1]
+                    en = _annotation_enum(init, pname, cglob)
+        else:
+            en = _annotation_enum(fn, t0[1], glob)
+
+        def index(value, codes=codes, t0=t0, glob=glob):
+            import types
+
+            loc = {"self": types.SimpleNamespace(**{t0[1]: value})} if t0[0] == "s" else {t0[1]: value}
+            for i, c in enumerate(codes):
+                if eval(c, glob, loc):  # noqa: S307 — expressions of the repository's own source
+                    return i
+            return len(codes)
+
+        out.append({"param": rt["param"], "where": rt["where"], "enum": en, "raises": rt["raises"], "index": index,
+                    "n_tests": len(codes)})
+    return out
+
+
+def _branch_target(test: ast.AST):
+    if isinstance(test, ast.Compare) and len(test.ops) == 1:
+        return _target(test.left)
+    return None
+
+
+def named_member(en, value):
+    """the member of `en` a configuration value names: by member name, by member value (case-insensitively), or as the text
+    `Cls.NAME` that OmegaConf stores for an Enum default of a `str` field"""
+    if en is None or value is None:
+        return None
+    if isinstance(value, en):
+        return value
+    text = str(value.value) if isinstance(value, enum.Enum) else str(value)
+    if text.startswith(en.__name__ + "."):
+        text = text[len(en.__name__) + 1:]
+    for m in en:
+        if m.name.lower() == text.lower() or str(m.value).lower() == text.lower():
+            return m
+    return None
+
+
+# =====================================================================================================================
+# collection (called from recipes/c20.py `introspect`) and Lean emission
+CONFIG_ROOTS = ("model", "additional_models", "physics", "training", "validation", "inference", "logging")
+
+# the call chains from a configuration value to the function whose guard decides about it; each hop is checked
+# syntactically on the current source (a hop that is no longer there makes the consumer `unverified`: reported, not proved)
+CONSUMER_ROUTES = [
+    {"path": ["validation", "crop"], "module": "direct.nn.mri_models", "attr": "_compute_resolution", "param": "key",
+     "needs": ["validation", "datasets"],
+     "hops": [("direct/nn/mri_models.py", "evaluate", ["crop=self.cfg.validation.crop"]),
+              ("direct/nn/mri_models.py", "reconstruct_volumes", ["_compute_resolution(key=crop"])]},
+    {"path": ["training", "loss", "crop"], "module": "direct.nn.mri_models", "attr": "_compute_resolution", "param": "key",
+     "needs": ["training", "datasets"],
+     "hops": [("direct/nn/mri_models.py", "build_loss", ["_compute_resolution(self.cfg.training.loss.crop"])]},
+    {"path": ["inference", "crop"], "module": "direct.nn.mri_models", "attr": "_compute_resolution", "param": "key",
+     "needs": ["inference", "dataset"],
+     "hops": [("direct/inference.py", "setup_inference_save_to_h5", ["env.cfg.inference.crop", "crop=crop"]),
+              ("direct/inference.py", "inference_on_environment", ["crop=crop"]),
+              ("direct/engine.py", "predict", ["self.reconstruct_volumes(", "crop=crop"]),
+              ("direct/nn/mri_models.py", "reconstruct_volumes", ["_compute_resolution(key=crop"])]},
+]
+
+# str_to_class call sites the model knows (file, enclosing function)
+MODELLED_STR_TO_CLASS = {
+    ("direct/environment.py", "load_model_config_from_name"), ("direct/environment.py", "load_model_from_name"),
+    ("direct/environment.py", "load_dataset_config"), ("direct/environment.py", "build_operators"),
+    ("direct/environment.py", "setup_engine"), ("direct/common/subsample.py", "build_masking_function"),
+    ("direct/data/datasets.py", "build_dataset"), ("direct/engine.py", "_build_function_class"),
+    ("direct/train.py", "setup_train"),
+}
+
+
+def _enclosing_functions(tree: ast.Module):
+    """yield (function node, class name or None) for every function, innermost last"""
+    def rec(body, cls):
+        for st in body:
+            if isinstance(st, ast.ClassDef):
+                yield from rec(st.body, st.name)
+            elif isinstance(st, (ast.FunctionDef, ast.AsyncFunctionDef)):
+                yield st, cls
+                yield from rec(st.body, cls)
+    yield from rec(tree.body, None)
+
+
+def collect(info, mods: dict, repo: pathlib.Path):
+    import importlib
+
+    # ---- constructors ---------------------------------------------------------------------------------------------
+    def add_class(route: int, module: str, attr: str, cls: type, override: dict | None = None):
+        r = class_guards(cls, repo)
+        params = dict(r["params"])
+        params.update(override or {})
+        sig = inspect.signature(cls.__init__)
+        required = [p.name for p in list(sig.parameters.values())[1:]
+                    if p.kind not in (p.VAR_KEYWORD, p.VAR_POSITIONAL) and p.default is inspect.Parameter.empty
+                    and p.name not in (override or {})]
+        routes = []
+        if route == 0:
+            try:
+                routes = class_routes(cls, repo)
+            except Exception as e:  # noqa: BLE001 — a dispatch we cannot read is reported, never fatal
+                r["opaque"].append(f"{module}.{attr}: dispatch chains not read ({e!r})")
+        info.guard_classes.append({"route": route, "module": module, "attr": attr, "params": params, "required": required,
+                                   "varkw": r["varkw"], "kw_policy": r["kw_policy"], "guards": r["guards"],
+                                   "opaque": r["opaque"], "kwargs_reads": sorted(r["kwargs_reads"]),
+                                   "forwarded": r["forwarded"], "routes": routes})
+
+    for name, _mri in info.registered_models:
+        modname, cls = name.rsplit(".", 1)
+        m = mods.get("direct.nn." + modname)
+        if m is not None and inspect.isclass(getattr(m, cls, None)):
+            add_class(0, "direct.nn." + modname, cls, getattr(m, cls))
+    sub = mods.get("direct.common.subsample")
+    if sub is not None:
+        bsig = inspect.signature(sub.build_masking_function)
+        # the builder always passes these three, with its own defaults when the block is silent
+        builder_over = {p.name: simple_default(p) for p in bsig.parameters.values()
+                        if p.name in ("center_fractions", "uniform_range", "mode")}
+        for n in info.registered_masks:
+            cls = getattr(sub, n + "MaskFunc")
+            cparams = inspect.signature(cls.__init__).parameters
+            over = {k: v for k, v in builder_over.items() if k in cparams or any(p.kind == p.VAR_KEYWORD for p in cparams.values())}
+            add_class(1, "direct.common.subsample", n + "MaskFunc", cls, over)
+    ds = mods.get("direct.data.datasets")
+    if ds is not None:
+        for n in list(info.registered_datasets) + list(info.dataset_bases):
+            add_class(2, "direct.data.datasets", n + "Dataset", getattr(ds, n + "Dataset"))
+    # ---- functions fed by configuration values ---------------------------------------------------------------------
+    seen_fn = set()
+    for route in CONSUMER_ROUTES:
+        verified = all(source_has(repo, rel, fn, needles) for rel, fn, needles in route["hops"])
+        info.consumers.append({**{k: route[k] for k in ("path", "module", "attr", "param", "needs")}, "verified": verified})
+        key = (route["module"], route["attr"])
+        if key not in seen_fn:
+            seen_fn.add(key)
+            try:
+                module = importlib.import_module(route["module"])
+                r = function_guards(module, route["attr"], repo)
+            except Exception as e:  # noqa: BLE001
+                r = {"guards": [], "opaque": [f"{route['module']}.{route['attr']}: {e!r}"]}
+            info.guard_classes.append({"route": 3, "module": route["module"], "attr": route["attr"], "params": {}, "required": [],
+                                       "varkw": False, "kw_policy": None, "guards": r["guards"], "opaque": r["opaque"],
+                                       "kwargs_reads": [], "forwarded": False, "routes": []})
+    # ---- attribute chains rooted at the configuration object ---------------------------------------------------------
+    files = sorted((repo / "direct").rglob("*.py")) + sorted((repo / "projects").rglob("*.py")) + sorted((repo / "tools").rglob("*.py"))
+    all_src = {}
+    for p in files:
+        try:
+            all_src[p] = p.read_text()
+        except OSError:
+            pass
+    chains = cfg_attribute_chains(repo, list(all_src))
+    fn_index: dict[str, list] = {}
+    for p in all_src:
+        try:
+            tree = _module_ast(str(p))
+        except SyntaxError:
+            continue
+        fn_index[str(p.relative_to(repo))] = [(f.lineno, getattr(f, "end_lineno", f.lineno), f.name, cls, f)
+                                              for f, cls in _enclosing_functions(tree)]
+    joined = "\n".join(all_src.values())
+
+    def enclosing(rel, line):
+        best = None
+        for lo, hi, name, cls, f in fn_index.get(rel, []):
+            if lo <= line <= hi and (best is None or lo >= best[0]):
+                best = (lo, hi, name, cls, f)
+        return best
+
+    import re as _re
+
+    for rel, line, path, store in chains:
+        if path[0] not in CONFIG_ROOTS:
+            continue
+        enc = enclosing(rel, line)
+        fname = enc[2] if enc else "<module>"
+        cls = enc[3] if enc else None
+        # a function nobody refers to (other than its own `def`) is never run: its chains are reported separately
+        called = True
+        if enc and not fname.startswith("__"):
+            called = len(_re.findall(r"\b" + _re.escape(fname) + r"\b", joined)) > 1
+        # the callee of a call is a method name, not a key
+        is_method = False
+        if enc:
+            for n in ast.walk(enc[4]):
+                if isinstance(n, ast.Call) and isinstance(n.func, ast.Attribute) and n.func.lineno == line \
+                        and n.func.attr == path[-1]:
+                    chain = []
+                    m = n.func
+                    while isinstance(m, ast.Attribute):
+                        chain.append(m.attr)
+                        m = m.value
+                    if tuple(reversed(chain))[-len(path):] == path:
+                        is_method = True
+        p2 = path[:-1] if is_method else path
+        if not p2:
+            continue
+        if p2[0] == "model" and len(p2) >= 2 and cls and cls.endswith("Engine") and rel.startswith("direct/nn/"):
+            mod = rel[:-3].replace("/", ".")
+            if p2[1] not in ("model_name", "engine_name"):
+                info.engine_model_fields.append((mod, cls, p2[1], f"{rel}:{line}"))
+            continue
+        info.cfg_chains.append((rel, line, tuple(p2), store, fname, called))
+    # an engine class also runs the methods it inherits: attribute the reads of its bases to it
+    by_cls: dict[tuple, list] = {}
+    for m, c, f, w in info.engine_model_fields:
+        by_cls.setdefault((m, c), []).append((f, w))
+    for m, c in info.registered_engines:
+        cls_obj = getattr(mods.get(m), c, None)
+        for base in getattr(cls_obj, "__mro__", [])[1:]:
+            for f, w in by_cls.get((base.__module__, base.__name__), []):
+                info.engine_model_fields.append((m, c, f, w))
+    # ---- every str_to_class call site ----------------------------------------------------------------------------------
+    for p in all_src:
+        rel = str(p.relative_to(repo))
+        if "str_to_class(" not in all_src[p]:
+            continue
+        for lo, hi, name, cls, f in fn_index.get(rel, []):
+            for n in ast.walk(f):
+                if isinstance(n, ast.Call) and ast.unparse(n.func).split(".")[-1] == "str_to_class" and len(n.args) >= 1:
+                    inner = enclosing(rel, n.lineno)
+                    if inner and inner[2] == name:
+                        info.str_to_class_sites.append((rel, name, ast.unparse(n.args[0])[:60], (rel, name) in MODELLED_STR_TO_CLASS))
+    info.str_to_class_sites = sorted(set(info.str_to_class_sites))
+    # ---- interpolation / Hydra-style `defaults` lists in the shipped files ------------------------------------------------
+    def walk_vals(v, where, rel):
+        if isinstance(v, dict):
+            for k, x in v.items():
+                walk_vals(x, where + [str(k)], rel)
+        elif isinstance(v, list):
+            for i, x in enumerate(v):
+                walk_vals(x, where + [str(i)], rel)
+        elif isinstance(v, str) and "${" in v:
+            info.interpolations.append(f"{rel}: {'.'.join(where)} = {v}")
+
+    for rel, tree in info.configs:
+        walk_vals(tree, [], rel)
+        if isinstance(tree, dict) and "defaults" in tree:
+            info.interpolations.append(f"{rel}: Hydra-style `defaults` list")
+    # ---- transform builder signature -------------------------------------------------------------------------------------
+    mt = mods.get("direct.data.mri_transforms") or importlib.import_module("direct.data.mri_transforms")
+    bs = inspect.signature(mt.build_mri_transforms)
+    info.builder_defaults = {p.name: simple_default(p) for p in bs.parameters.values() if p.kind != p.VAR_KEYWORD}
+    info.builder_required = [n for n, d in info.builder_defaults.items() if d == "NODEFAULT"]
+    # ---- report only: config fields swallowed by **kwargs that the constructor never reads --------------------------------------
+    for gc in info.guard_classes:
+        if gc["route"] != 0 or not gc["varkw"] or gc["forwarded"]:
+            continue
+        cfg_cls = info.schema_classes.get((gc["module"].rsplit(".", 1)[0] + ".config", gc["attr"] + "Config"))
+        if cfg_cls is None:
+            continue
+        import dataclasses as _dc
+
+        allowed = set((gc["kw_policy"] or {}).get("names", []))
+        for f in _dc.fields(cfg_cls):
+            if f.name in ("model_name", "engine_name") or f.name in gc["params"] or f.name in gc["kwargs_reads"] or f.name in allowed:
+                continue
+            info.dead_model_keys.append(f"{cfg_cls.__name__}.{f.name}")
+    # ---- strings that become symbols --------------------------------------------------------------------------------------------
+    for gc in info.guard_classes:
+        info.strings.update(gc["params"].keys())
+        info.strings.update(gc["required"])
+        for g in gc["guards"]:
+            info.strings.add(g["param"])
+            info.strings.update(a[1] for a in g["cond"])
+            if g["guard"][0] == "eqOrRange":
+                info.strings.add(g["guard"][3])
+        for rt in gc.get("routes", []):
+            info.strings.add(rt["param"])
+        for d in gc["params"].values():
+            if isinstance(d, enum.Enum):
+                info.strings.add(str(d.value))
+            elif isinstance(d, str) and d not in ("NODEFAULT", "UNKNOWN"):
+                info.strings.add(d)
+            elif isinstance(d, float):
+                info.strings.add(repr(d))
+            elif isinstance(d, list):
+                for x in d:
+                    if isinstance(x, str):
+                        info.strings.add(x)
+                    elif isinstance(x, float):
+                        info.strings.add(repr(x))
+    for c in info.consumers:
+        info.strings.update(c["path"] + c["needs"] + [c["param"]])
+    for ch in info.cfg_chains:
+        info.strings.update(ch[2])
+    for e in info.engine_model_fields:
+        info.strings.add(e[2])
+    info.strings.update(info.builder_defaults.keys())
+    info.strings.update(["optimizer", "transform", "transforms", "text_description", "crop", "loss"])
+    for d in info.builder_defaults.values():
+        if isinstance(d, enum.Enum):
+            info.strings.update([d.name, str(d.value)])
+        elif isinstance(d, float):
+            info.strings.add(repr(d))
+        elif isinstance(d, str) and d not in ("NODEFAULT", "UNKNOWN"):
+            info.strings.add(d)
+        elif isinstance(d, list):
+            info.strings.update(repr(x) if isinstance(x, float) else x for x in d if isinstance(x, (str, float)))
+
+
+# ---- Lean text ------------------------------------------------------------------------------------------------------------
+def lean_const(c, packed) -> str:
+    if c[0] == "none":
+        return ".none"
+    if c[0] == "bool":
+        return f".bool {'true' if c[1] else 'false'}"
+    if c[0] == "int":
+        return f".int ({c[1]})"
+    return f".str {packed(c[1])} {'true' if c[2] else 'false'}"
+
+
+def lean_guard(g, S, packed) -> str:
+    k = g[0]
+    cs = lambda xs: "[" + ", ".join(lean_const(c, packed) for c in xs) + "]"  # noqa: E731
+    if k == "oneOf":
+        return f"(.oneOf {cs(g[1])} false)"
+    if k == "oneOfOrFalsy":
+        return f"(.oneOf {cs(g[1])} true)"
+    if k == "allOneOf":
+        return f"(.allOneOf {cs(g[1])})"
+    if k == "allBetween":
+        return f"(.allBetween ({g[1]}) ({g[2]}))"
+    if k == "allIntGt":
+        return f"(.allIntGt ({g[1]}))"
+    if k == "allMultipleOf":
+        return f"(.allMultipleOf {g[1]})"
+    if k == "lenIn":
+        return f"(.lenIn {list(g[1])})"
+    if k == "pairOrdered":
+        return f"(.pairOrdered {'true' if g[1] else 'false'})"
+    if k == "eqOrRange":
+        return f"(.eqOrRange ({g[1]}) ({g[2]}) {S(g[3])})"
+    if k == "charsSubset":
+        return f"(.charsSubset {list(g[1])})"
+    if k == "vacuous":
+        return ".vacuous"
+    raise ValueError(k)
+
+
+COND_CODE = {"truthy": 0, "notNone": 1, "falsy": 2}
+
+
+def default_val(d, info, pool) -> str:
+    """constructor default as a `Val` (an Enum member: its value, with kind bit 8 = "is an enum member")"""
+    if isinstance(d, enum.Enum):
+        return f".str {info.S(str(d.value))} 8"
+    if isinstance(d, str) and d in ("NODEFAULT", "UNKNOWN"):
+        return ".missing"
+    try:
+        return pool.val(d)
+    except (TypeError, KeyError):
+        return ".missing"
+
+
+def emit_phase3(info, pool, packed, chunked) -> tuple[str, dict]:
+    """Lean text of the phase-3 tables (inside namespace DirectVerif.Gen.C20, after `tables`)"""
+    S = info.S
+    out: list[str] = []
+    status: dict[str, str] = {}
+    rows, soft, classes, opaque = [], [], [], []
+    for gc in info.guard_classes:
+        cls = f"({packed(gc['module'])}, {packed(gc['attr'])})"
+        for g in gc["guards"]:
+            cond = "[" + ", ".join(f"({COND_CODE[k]}, {S(p)})" for k, p in g["cond"]) + "]"
+            rows.append(f"{{ route := {gc['route']}, cls := {cls}, param := {S(g['param'])}, cond := {cond}, "
+                        f"guard := {lean_guard(g['guard'], S, packed)} }}")
+        for rt in gc.get("routes", []):
+            consts = "[" + ", ".join(lean_const(c, packed) for c in rt["consts"]) + "]"
+            if rt["raises"]:
+                rows.append(f"{{ route := {gc['route']}, cls := {cls}, param := {S(rt['param'])}, cond := [], "
+                            f"guard := (.oneOf {consts} false) }}")
+            else:
+                soft.append(f"{{ route := 4, cls := {cls}, param := {S(rt['param'])}, cond := [], "
+                            f"guard := (.oneOf {consts} true) }}")
+        opaque += gc["opaque"]
+        params = "[" + ", ".join(f"({S(n)}, {default_val(d, info, pool)})" for n, d in gc["params"].items()) + "]"
+        pol = gc["kw_policy"]
+        kw = "none" if pol is None else ("(some ([" + ", ".join(packed(n) for n in pol["names"]) + "], [" +
+                                         ", ".join(packed(n) for n in pol["prefixes"]) + "]))")
+        classes.append(f"{{ route := {gc['route']}, cls := {cls}, params := {params}, required := {[S(x) for x in gc['required']]}, "
+                       f"varkw := {'true' if gc['varkw'] else 'false'}, kwPolicy := {kw} }}")
+    out.append("/-! ## phase 3: value-level guards, constructor signatures, consumers of configuration values -/")
+    out.append(chunked("guardRows", "List GuardRow", rows, 16))
+    out.append("/-- dispatches without a raising `else`: the value must name one of the branches (or be the fallback's member) -/")
+    out.append(chunked("softRows", "List GuardRow", soft, 16))
+    out.append(chunked("classInfos", "List ClassInfo", classes, 8))
+    # exact value of every float literal; value of every enum member
+    floats = []
+    for sym in info.symbols:
+        try:
+            f = float(sym)
+        except ValueError:
+            continue
+        if repr(f) == sym and f == f and f not in (float("inf"), float("-inf")):
+            n, d = f.as_integer_ratio()
+            floats.append(f"({S(sym)}, ({n}), {d})")
+    out.append(chunked("floatRatios", "List (Sym × Int × Nat)", floats, 32))
+    evs = []
+    for e in info.enums.values():
+        for mem in e.__members__:
+            v = e[mem].value
+            if isinstance(v, str):
+                evs.append(f"({S(e.__name__ + '.' + mem)}, {packed(v)})")
+    out.append(chunked("enumValues", "List (Sym × PStr)", evs, 32))
+    out.append("def gtables : GTables := { floats := floatRatios, enumValues := enumValues, rows := guardRows ++ softRows, classes := classInfos }\n")
+    out.append("/-- raising statements of the scanned constructors that the guard language does not express (reported, not judged) -/")
+    out.append(f"def opaqueGuards : Nat := {len(opaque)}")
+    cons = []
+    for c in info.consumers:
+        if c["verified"]:
+            cons.append(f"{{ path := {[S(x) for x in c['path']]}, cls := ({packed(c['module'])}, {packed(c['attr'])}), "
+                        f"param := {S(c['param'])}, needs := {[S(x) for x in c['needs']]} }}")
+    out.append("def consumers : List Consumer := [\n  " + ",\n  ".join(cons) + "]")
+    out.append(f"def consumersUnverified : Nat := {sum(1 for c in info.consumers if not c['verified'])}")
+    out.append(f"def kOptimizer : Sym := {S('optimizer')}")
+    out.append(f"def maskingSchema : Ty := " + ("ty_direct_common_subsample_config_MaskingConfig"
+               if ("direct.common.subsample_config", "MaskingConfig") in info.schema_classes else "Ty.any"))
+    # attribute chains
+    pk = [c for c in info.cfg_chains if c[0].startswith("direct/")]
+    pr = [c for c in info.cfg_chains if not c[0].startswith("direct/")]
+
+    def chain_list(cs):
+        seen, res = set(), []
+        for rel, line, path, store, fn, called in cs:
+            key = (path, called)
+            if key in seen:
+                continue
+            seen.add(key)
+            res.append(f"({[S(x) for x in path]}, {'true' if called else 'false'})")
+        return res
+
+    out.append("/-- attribute chains `cfg.a.b.c` of the package / of the project scripts: (path, enclosing function is referenced anywhere) -/")
+    out.append(chunked("cfgChainsPackage", "List (List Sym × Bool)", chain_list(pk), 24))
+    out.append(chunked("cfgChainsProjects", "List (List Sym × Bool)", chain_list(pr), 24))
+    emf = sorted({(m, c, f) for m, c, f, _ in info.engine_model_fields})
+    out.append("/-- `self.cfg.model.<field>` read by an engine class: (module, class, field) -/")
+    out.append(chunked("engineModelFields", "List (PStr × PStr × Sym)", [f"({packed(m)}, {packed(c)}, {S(f)})" for m, c, f in emf], 16))
+    out.append("/-- `str_to_class` call sites: (file, function, is one of the modelled look-ups) -/")
+    out.append("def strToClassSites : List (PStr × PStr × Bool) := [" + ", ".join(
+        f"({packed(rel)}, {packed(fn)}, {'true' if ok else 'false'})" for rel, fn, _m, ok in info.str_to_class_sites) + "]")
+    out.append("/-- `${…}` interpolations / Hydra-style `defaults` lists in the shipped files (none of which the merge model covers) -/")
+    out.append(f"def interpolations : Nat := {len(info.interpolations)}")
+    bd = info.builder_defaults
+    out.append("/-- parameters of `build_mri_transforms` with their defaults -/")
+    out.append("def builderDefaults : List (Sym × Val) := [" + ", ".join(
+        f"({S(n)}, {default_val(d, info, pool)})" for n, d in bd.items()) + "]")
+    out.append(f"def builderRequired : List Sym := {[S(x) for x in info.builder_required]}")
+    out.append(f"def kTransform : Sym := {S('transform')}")
+    out.append(f"def kTextDescription : Sym := {S('text_description')}\n")
+    status["guards"] = (f"extracted: {len(rows)} guard rows, {len(soft)} dispatch rows over {len(classes)} constructors / functions; "
+                        f"{len(opaque)} opaque raising statements")
+    if opaque:
+        status["guards_opaque"] = "; ".join(opaque)[:1500]
+    unverified = [c for c in info.consumers if not c["verified"]]
+    status["consumers"] = f"{len(cons)} verified" + (f", UNVERIFIED: {[c['path'] for c in unverified]}" if unverified else "")
+    status["cfg_chains"] = f"{len(pk)} package + {len(pr)} project attribute chains, {len(emf)} engine model-field reads"
+    status["str_to_class_sites"] = f"{len(info.str_to_class_sites)} sites, unmodelled: {[(a, b) for a, b, _c, ok in info.str_to_class_sites if not ok]}"
+    if info.dead_model_keys:
+        status["dead_model_keys(report-only)"] = ", ".join(info.dead_model_keys)[:600]
+    if info.interpolations:
+        status["interpolations"] = "; ".join(info.interpolations)[:400]
+    return "\n".join(out), status
